@@ -247,7 +247,13 @@ where
 
                 // Reconstruct hash from relative path
                 let relative_path = blob_path.strip_prefix(cas_root).ok();
-                match relative_path.and_then(|p| BlobHash::from_relative_path(p).ok()) {
+                // Accept the entry as a blob only if it sits at the canonical path of the hash its
+                // name decodes to: `from_relative_path` also accepts upper-case digits and any
+                // three-way split of the 64 digits, and such a file is neither readable through
+                // the index nor removable by hash.
+                match relative_path.and_then(|p| {
+                    BlobHash::from_relative_path(p).ok().filter(|hash| hash.relative_path() == p)
+                }) {
                     Some(hash) => {
                         seen_blobs.insert(hash);
 
